@@ -131,3 +131,10 @@ Theorem C12_negated_if_swap_compiled : forall n G c a b r,
   ssem (S n) G (NIfElse (NUn "!" c) a b) = Some r -> ssem (S n) G (NIfElse c b a) = Some r.
 Proof. exact negated_if_swap. Qed.
 Print Assumptions C12_negated_if_swap_compiled.
+
+(* x = x + 1  and  x = 1 + x  mean the same for every value of x (ints, floats, and the same error otherwise);
+   both compile to INC, whose meaning is the first form *)
+Theorem C12_inc_forms : forall G g,
+  den G (NBin "+" (NName g) (NInt 1)) = den G (NBin "+" (NInt 1) (NName g)).
+Proof. intros G g. rewrite den_inc_left, den_inc_right. symmetry. apply arith_add_1_comm. Qed.
+Print Assumptions C12_inc_forms.
